@@ -302,11 +302,11 @@ mod search {
                     // a chain of routing modifiers, then nest or routes; chains repeat prefixes/domains on purpose so that
                     // two consecutive chains with the same prefix and domain occur
                     // verbatim means verbatim: case, surrounding blanks and non-ASCII are the compiler's business, not the builder's
-                    let prefixes = ["/api", "/v1", "/Admin Panel", "/é/{Id}"];
+                    let prefixes = ["/api", "/v1", "/Admin Panel", "/é/{Id}", ""]; // the empty prefix too: rejecting it is the compiler's job, with the user's location
                     let domains = ["example.com", "{sub}.example.com", "API.Example.COM", "{Tenant}.example.com", " spaced.example.com "];
                     let (mut wp, mut wd): (Option<s::PathPrefix>, Option<s::Domain>) = (None, None);
                     let mut m = if rng.n(2) == 0 {
-                        let p = prefixes[rng.n(4) as usize];
+                        let p = prefixes[rng.n(5) as usize];
                         let (l, m) = (line!(), bp.prefix(p)); wp = Some(s::PathPrefix { path_prefix: p.into(), registered_at: loc(l) }); m
                     } else {
                         let d = domains[rng.n(5) as usize];
@@ -314,7 +314,7 @@ mod search {
                     };
                     for _ in 0..rng.n(3) {
                         if rng.n(2) == 0 {
-                            let p = prefixes[rng.n(4) as usize];
+                            let p = prefixes[rng.n(5) as usize];
                             let l = line!(); m = m.prefix(p); wp = Some(s::PathPrefix { path_prefix: p.into(), registered_at: loc(l) });
                         } else {
                             let d = domains[rng.n(5) as usize];
